@@ -265,6 +265,8 @@ SEEDS = [
     "c = 1\nd = 0\nx = 1\ny = 2\nwhile true:\n    y = x**2\n    if c == 1:\n        if d == 1:\n            x = x + 1\n        else:\n            d = 1\n        end\n    end\nend\n",
     # characteristic polynomial with radical AND CRootOf roots (numeric_croots mixes floats and radicals)
     "x = 1\ny = 2\nwhile true:\n    x, y = y, x + y\n    x = x + 2 {1/4} x {1/4} x - y\nend\n",
+    # conditioned constant after a lagging copy, read earlier in the body (typer fixed point)
+    "w = 0\nx = 0\ns = 0\ny = 0\nc = 0\nwhile true:\n    y = s**2\n    s = 4*x**2\n    c = Bernoulli(1/2)\n    x = w\n    if c == 1:\n        x = 0\n    end\n    w = Bernoulli(1/2)\nend\n",
     # a loop variable assigned more than once in the initial block
     "x = 1\nx = 7\ny = 0\nwhile true:\n    y = Bernoulli(1/2)\n    x = x*y\nend\n",
     "c = Bernoulli(1/2)\nx = c\nx = 3*x + 2\ny = 0\nwhile true:\n    y = Bernoulli(1/2)\n    x = x*y + y\nend\n",
